@@ -30,35 +30,12 @@ ENGINES = {
 }
 
 
-def main(argv=None) -> int:
-    ap = argparse.ArgumentParser()
-    ap.add_argument("prop")
-    ap.add_argument("--tier", default=os.environ.get("VERIF_TIER", "quick"), choices=["quick", "thorough"])
-    ap.add_argument("--replay")
-    ap.add_argument("--runs", type=int)
-    ap.add_argument("--jobs", type=int, default=int(os.environ.get("VERIF_JOBS", "16")))
-    args = ap.parse_args(argv)
-    seed = int(os.environ.get("VERIF_SEED", "0"))
-
-    if os.environ.get("PYTHONHASHSEED") is None:
-        # fixed hash seed: set iteration order of str sets must not differ between
-        # the run that finds a violation and the one that replays it
-        os.environ["PYTHONHASHSEED"] = "0"
-        os.execv(sys.executable, [sys.executable, os.path.abspath(__file__), *sys.argv[1:]])
-
-    if args.prop == "selftest":
-        from sim import selftest
-
-        return selftest.main(seed, args.jobs)
-
-    prop = args.prop.upper()
-    if prop not in ENGINES:
-        print(f"unknown property {prop}")
-        return 2
+def _prepare(prop: str, argv_tail: list) -> None:
+    """Engine-specific process set-up that must precede ``import yaw``."""
     if ENGINES[prop] == "crashfs" or prop == "C09":
         from sim import crashfs
 
-        crashfs.ensure_preloaded([os.path.abspath(__file__), *sys.argv[1:]])
+        crashfs.ensure_preloaded([os.path.abspath(__file__), *argv_tail])
     if ENGINES[prop] == "fakempi" or os.environ.get("VERIF_FORCE_MPI") == "1":
         from sim import fakempi
 
@@ -72,6 +49,49 @@ def main(argv=None) -> int:
     warnings.filterwarnings("ignore")
     np.seterr(all="ignore")
 
+
+def digests_main(prop: str, ncases: int, jobs: int) -> int:
+    """Print {case index: [verdict, digest]} for the first cases of the quick tier
+    (used by the determinism self-test, which runs this in fresh interpreters)."""
+    import json
+
+    prop = prop.upper()
+    _prepare(prop, sys.argv[1:])
+    mod = importlib.import_module(f"checks.{prop.lower()}")
+    from sim import selftest
+
+    print(json.dumps(selftest.digests(mod, prop, ncases, jobs, int(os.environ.get("VERIF_SEED", "0")))))
+    return 0
+
+
+def main(argv=None) -> int:
+    if argv is None and len(sys.argv) >= 2 and sys.argv[1] == "digests":
+        return digests_main(sys.argv[2], int(sys.argv[3]), int(sys.argv[4]))
+    ap = argparse.ArgumentParser()
+    ap.add_argument("prop")
+    ap.add_argument("--tier", default=os.environ.get("VERIF_TIER", "quick"), choices=["quick", "thorough"])
+    ap.add_argument("--replay")
+    ap.add_argument("--runs", type=int)
+    ap.add_argument("--jobs", type=int, default=int(os.environ.get("VERIF_JOBS", "16")))
+    args = ap.parse_args(argv)
+    seed = int(os.environ.get("VERIF_SEED", "0"))
+
+    if args.prop == "selftest":
+        from sim import selftest
+
+        return selftest.main(seed, args.jobs, [p.upper() for p in os.environ.get("VERIF_SELFTEST_PROPS", "").split(",") if p] or None)
+
+    if os.environ.get("PYTHONHASHSEED") is None:
+        # fixed hash seed: set iteration order of str sets must not differ between
+        # the run that finds a violation and the one that replays it
+        os.environ["PYTHONHASHSEED"] = "0"
+        os.execv(sys.executable, [sys.executable, os.path.abspath(__file__), *sys.argv[1:]])
+
+    prop = args.prop.upper()
+    if prop not in ENGINES:
+        print(f"unknown property {prop}")
+        return 2
+    _prepare(prop, sys.argv[1:])
     mod = importlib.import_module(f"checks.{prop.lower()}")
     from sim import harness
 
